@@ -33,16 +33,8 @@ enum { SK_OP = 0, SK_API, SK_PERM, SK_INTERNAL, SK_DEVICE, SK_OS, SK_HOOK };
  * register-preserving trampolines that do not depend on the wrapped function's signature, so that a
  * behaviour-preserving change of an internal prototype cannot make the harness call it wrongly. */
 
-extern int __real_tinyjambu_trng_generate(unsigned char *out) WEAK;
-int __wrap_tinyjambu_trng_generate(unsigned char *out) {
-    int r, on;
-    sim_point_c(SK_INTERNAL, 144);
-    on = sim_trng_pre();
-    r = __real_tinyjambu_trng_generate(out);
-    if (on) sim_trng_post(r, out);
-    sim_point_c(SK_INTERNAL, 145);
-    return r;
-}
+/* The seam at the system entropy source (tinyjambu_trng_generate or whatever the tree calls it) is generated per build
+ * by tools/build.sh into trngshim.c, because it is an internal name that a refactoring may change. */
 
 /* ---- guarded hook inside leaf loops (only present in -DTINYJAMBU_VERIF objects) */
 void tinyjambu_verif_point(int site) { sim_point_c(SK_HOOK, 300 + site); }
